@@ -60,9 +60,13 @@ namespace gs
         virtual size_t stored() = 0;
         // the bytes currently stored, through the same public observers (cstr()/size(); line.buf/line.len)
         virtual std::vector<uint8_t> stored_bytes() = 0;
-        // private automaton state for BFS keys (state, crc, len, cursor, stored bytes); C05 only
+        // the receiver's contribution to a BFS state key (C05 only); what it is made of depends on key_mode()
         virtual std::string implkey() = 0;
     };
+    // 0: implkey() is the receiver's own automaton fields (state, crc, len, cursor, stored bytes)
+    // 1: implkey() is the public observers + a behavioural fingerprint from probing copies (private names unavailable)
+    // 2: implkey() is the public observers only: NOT a sound merge key, the search must key on the input history
+    int key_mode(int codec);
     // buf/cap: the receive buffer handed to the library (owned by the caller, must outlive the receiver)
     Receiver *make_receiver(int codec, uint8_t *buf, int cap);
 
